@@ -789,41 +789,42 @@ def r05_14(run, model):
         return
     for c in preds:
         g = model.fn(c["method"], LOWER, impl="LowerCtx")
-        fields = {x.get("member") for x in S.walk(g.body) if x["k"] == "Field" and S.is_path(x["base"], "self")}
-        if len(fields) != 1:
-            raise AnalysisIncomplete(f"{c['method']}: reads {sorted(fields)}")
-        field = next(iter(fields))
-        # where is that field filled?  LowerCtx::new binds it from a collector; follow the collector's returned sets
-        new = model.fn("new", LOWER, impl="LowerCtx")
-        src = None
-        for l in S.find(new.body, "Local"):
-            if field in S.pat_bindings(l["pat"]) and l.get("init") is not None and l["init"]["k"] == "Call":
-                names = S.pat_bindings(l["pat"])
-                src = (S.callee_name(l["init"]), names.index(field), len(names))
-        if src is None:
-            raise AnalysisIncomplete(f"LowerCtx::new: the source of `{field}` was not found")
-        col = model.fn(src[0], LOWER)
-        # the local returned at that position
-        last = col.body["stmts"][-1]["expr"] if col.body["stmts"] and col.body["stmts"][-1]["k"] == "ExprStmt" else None
-        if last is None:
-            raise AnalysisIncomplete(f"{src[0]}: result expression not found")
-        if last["k"] == "Tuple":
-            var = last["elems"][src[1]]
-        elif src[2] == 1:
-            var = last
-        else:
-            raise AnalysisIncomplete(f"{src[0]}: result is not a tuple of sets")
-        if var["k"] != "Path":
-            raise AnalysisIncomplete(f"{src[0]}: result component is not a variable")
-        vn = var["segs"][0]
-        par = S.Parents(col.body)
-        ins = [x for x in S.walk(col.body) if x["k"] == "MethodCall" and x["method"] in ("insert", "extend") and S.is_path(x["recv"], vn)]
-        outside = []
-        for x in ins:
-            arms = [a for a in par.ancestors(x) if a["k"] == "Arm"]
-            top = arms[-1] if arms else None
-            if top is None or not re.search(r"Item::Enum\b", S.norm_ws(run.facts.text(LOWER, top["pat"]["sp"]))):
-                outside.append(x)
+        # the set the predicate reads: the outermost field chain below `self` (`self.variant_names`, `self.names.variants`); its last member
+        # names the set, and every insertion into a set of that name anywhere in the file (a local moved into the field by shorthand, or
+        # the field itself) is what fills it
+        chains = []
+        for x in S.walk(g.body):
+            if x["k"] == "Field":
+                mem, b = [x.get("member")], x["base"]
+                while b["k"] == "Field":
+                    mem.append(b.get("member"))
+                    b = b["base"]
+                if S.is_path(b, "self"):
+                    chains.append(tuple(reversed(mem)))
+        chains = [c_ for c_ in set(chains) if not any(o != c_ and o[:len(c_)] == c_ for o in chains)]
+        if len(chains) != 1:
+            raise AnalysisIncomplete(f"{c['method']}: reads {sorted(chains)}")
+        field = chains[0][-1]
+        ins, outside, where = [], [], set()
+        for col in model.fns(LOWER):
+            if col.body is None or col.test:
+                continue
+            par = None
+            for x in S.walk(col.body):
+                if not (x["k"] == "MethodCall" and x["method"] in ("insert", "extend")):
+                    continue
+                r = x["recv"]
+                last = r["segs"][-1] if r["k"] == "Path" else (r.get("member") if r["k"] == "Field" else None)
+                if last != field:
+                    continue
+                par = par or S.Parents(col.body)
+                ins.append(x)
+                where.add(col.name)
+                arms = [a for a in par.ancestors(x) if a["k"] == "Arm"]
+                top = arms[-1] if arms else None
+                if top is None or not re.search(r"Item::Enum\b", S.norm_ws(run.facts.text(LOWER, top["pat"]["sp"]))):
+                    outside.append(x)
+        src = (", ".join(sorted(where)) or "?",)
         run.ob("R05.14", "lower_pat|an identifier pattern is classified by the variants of the file", bool(ins) and not outside, site(LOWER, c["sp"]),
                f"ctx.{c['method']}() reads `{field}`, filled by {src[0]}: {len(ins)} insertion(s), {len(outside)} outside the enum arm",
                witness="struct point { x: int32, y: int32 } .. let point = point { x: dx, y: 2 }; norm1(point): `Struct point patterns must use "
